@@ -239,8 +239,10 @@ def native_secrets(kty, native):
     raise ValueError(kty)
 
 
-def native_jwk(kty, native, private=True, crt=True):
-    """JWK written by this harness from the native numbers"""
+def native_jwk(kty, native, private=True, crt=True, canon=None):
+    """JWK written by this harness from the native numbers.  canon="short": EC x / y / d
+    with their leading zero octets stripped (as older exporters write them); "long": one
+    extra zero octet in front of x and d"""
     S = _ser()
     if kty == "oct":
         return {"kty": "oct", "k": b64u(native)}
@@ -260,6 +262,14 @@ def native_jwk(kty, native, private=True, crt=True):
         d = {"kty": "EC", "crv": crv, "x": b64u(i2b(n.public_numbers.x, L)), "y": b64u(i2b(n.public_numbers.y, L))}
         if private:
             d["d"] = b64u(i2b(n.private_value, L))
+        if canon == "short":
+            for m in ("x", "y", "d"):
+                if m in d:
+                    d[m] = b64u(unb64u(d[m]).lstrip(b"\x00") or b"\x00")
+        elif canon == "long":
+            for m in ("x", "d"):
+                if m in d:
+                    d[m] = b64u(b"\x00" + unb64u(d[m]))
         return d
     if kty == "OKP":
         crv = type(native).__name__.replace("PrivateKey", "").lstrip("_")
@@ -270,6 +280,12 @@ def native_jwk(kty, native, private=True, crt=True):
              "x": b64u(native.public_key().public_bytes(S.Encoding.Raw, S.PublicFormat.Raw))}
         if private:
             d["d"] = b64u(native.private_bytes(S.Encoding.Raw, S.PrivateFormat.Raw, S.NoEncryption()))
+        if canon == "short":      # (refused by the library when the key has no leading zero octet to strip: fixed-length raw octets)
+            for m in ("x", "d"):
+                if m in d:
+                    d[m] = b64u(unb64u(d[m]).lstrip(b"\x00") or b"\x00")
+        elif canon == "long":
+            d["x"] = b64u(b"\x00" + unb64u(d["x"]))
         return d
     raise ValueError(kty)
 
@@ -305,6 +321,7 @@ def make_key(recipe):
 class Entry:
     def __init__(self, name, kty, crv, recipe, native, public_only, key=None):
         self.name, self.kty, self.crv, self.recipe = name, kty, crv, recipe
+        self.noncanonical = "-noncanon-" in name
         self.native, self.public_only = native, public_only
         self.key = key if key is not None else make_key(recipe)
         self.secrets = native_secrets(kty, native) if native is not None else []
@@ -372,6 +389,27 @@ def build_zoo(ctx):
         add("%s-pub-jwk" % tag, kty, crv,
             {"kty": kty, "how": "jwk", "data": json.dumps(native_jwk(kty, native, private=False)), "parameters": params()}, native, True)
 
+    def noncanonical(kty, crv, native, tag):
+        """the same key written with short / long member encodings (imported from JWK only)"""
+        for canon in ("short", "long"):
+            for priv in (True, False):
+                j = native_jwk(kty, native, private=priv, canon=canon)
+                if j == native_jwk(kty, native, private=priv):
+                    continue
+                if priv and rng.random() < 0.5:
+                    j.update({"kid": "nc-" + tag, "x-extra": [canon]})
+                add("%s-noncanon-%s-%s" % (tag, canon, "jwk" if priv else "pub-jwk"), kty, crv,
+                    {"kty": kty, "how": "jwk", "data": json.dumps(j), "parameters": params() if priv else None}, native, not priv)
+
+    def leading_zero_key(gen, has_zero, tries=4000):
+        """search generated keys until one has a leading zero octet in a public coordinate"""
+        k = None
+        for _ in range(tries):
+            k = gen()
+            if has_zero(k):
+                return k, True
+        return k, False
+
     # ---- RSA: one generated 2048-bit key per run, and the RFC 7520 literal
     g = RSAKey.generate_key(2048)
     asym("RSA", 2048, g.private_key, "rsa2048", generated=g)
@@ -400,6 +438,16 @@ def build_zoo(ctx):
             p = params() if r else None
             g = ECKey.generate_key(crv, p)
             asym("EC", crv, g.private_key, "ec-%s-%d" % (crv, r), generated=g, gen_params=p)
+        def ec_zero(k, L=(ECKey.binding._dss_curves[crv]().key_size + 7) // 8):
+            pn = k.private_numbers().public_numbers
+            return i2b(pn.x, L)[0] == 0 or i2b(pn.y, L)[0] == 0
+        from cryptography.hazmat.primitives.asymmetric import ec as _ec
+        nat, found0 = leading_zero_key(lambda: _ec.generate_private_key(ECKey.binding._dss_curves[crv]()), ec_zero)
+        if not found0:
+            skipped.append("ec-%s: no key with a leading zero octet found" % crv)
+        noncanonical("EC", crv, nat, "ec-%s-z" % crv)
+        add("ec-%s-z-jwk" % crv, "EC", crv, {"kty": "EC", "how": "jwk", "data": json.dumps(native_jwk("EC", nat)), "parameters": None}, nat, False)
+        add("ec-%s-z-pem" % crv, "EC", crv, {"kty": "EC", "how": "pem", "data": native_bytes(nat, True, False).decode(), "parameters": None}, nat, False)
         gp = ECKey.generate_key(crv, private=False)
         add("ec-%s-generated-public" % crv, "EC", crv, {"kty": "EC", "how": "generate", "data": crv, "private": False, "parameters": None},
             None, True, key=gp)
@@ -409,6 +457,16 @@ def build_zoo(ctx):
             p = params() if r else None
             g = OKPKey.generate_key(crv, p)
             asym("OKP", crv, g.private_key, "okp-%s-%d" % (crv, r), generated=g, gen_params=p)
+        S_ = _ser()
+        from cryptography.hazmat.primitives.asymmetric import ed25519, ed448, x25519, x448
+        okp_cls = {"Ed25519": ed25519.Ed25519PrivateKey, "Ed448": ed448.Ed448PrivateKey,
+                   "X25519": x25519.X25519PrivateKey, "X448": x448.X448PrivateKey}[crv]
+        nat, found0 = leading_zero_key(okp_cls.generate, lambda k: k.public_key().public_bytes(S_.Encoding.Raw, S_.PublicFormat.Raw)[0] == 0,
+                                       tries=1500)
+        if found0:
+            n_before = len(zoo)
+            noncanonical("OKP", crv, nat, "okp-%s-z" % crv)      # fixed-length raw octets: the library refuses these (recorded below)
+            add("okp-%s-z-jwk" % crv, "OKP", crv, {"kty": "OKP", "how": "jwk", "data": json.dumps(native_jwk("OKP", nat)), "parameters": None}, nat, False)
         gp = OKPKey.generate_key(crv, private=False)
         add("okp-%s-generated-public" % crv, "OKP", crv, {"kty": "OKP", "how": "generate", "data": crv, "private": False, "parameters": None},
             None, True, key=gp)
@@ -633,6 +691,151 @@ def short(o, n=160):
 
 
 # ----------------------------------------------------------------------------
+# JWE with caller-provided ephemeral keys
+# ----------------------------------------------------------------------------
+EPK_ALGS = [("ECDH-ES", "A128GCM"), ("ECDH-ES+A128KW", "A128GCM"), ("ECDH-ES+A256KW", "A256CBC-HS512"),
+            ("ECDH-1PU", "A256GCM"), ("ECDH-1PU+A128KW", "A128CBC-HS256"), ("ECDH-1PU+A256KW", "A256CBC-HS512")]
+EPK_SERS = ["compact", "flattened", "general-1", "general-2", "general-3"]
+
+
+def agreement_capable(e):
+    return (e.kty == "EC") or (e.kty == "OKP" and e.crv in ("X25519", "X448"))
+
+
+def epk_token_plan(ctx, zoo):
+    """every agreement-capable key of the zoo, in every representation, as caller-provided ephemeral key"""
+    rng = ctx.rng
+    cands = [e for e in zoo if agreement_capable(e)]
+
+    def same(e, private=None):
+        return [x for x in cands if x.kty == e.kty and x.crv == e.crv and (private is None or x.public_only != private)]
+
+    def static(e):      # recipes that rebuild the same key (a "generate" recipe would give another key)
+        return e.recipe["how"] != "generate"
+
+    def usable(e):      # declared use / key_ops allow key agreement
+        d = e.key.dict_value
+        return d.get("use") != "sig" and ("key_ops" not in d or "deriveKey" in d["key_ops"])
+    plan = []
+    for eph in cands:
+        if not static(eph):
+            continue
+        combos = [(a, s) for a in EPK_ALGS for s in EPK_SERS if not (s in ("general-2", "general-3") and "+" not in a[0])]
+        if eph.public_only:
+            # the API has no use for a public-only ephemeral key (the exchange needs its private part): one attempt each
+            combos = [rng.choice(combos)]
+        elif ctx.quick:
+            combos = rng.sample(combos, 4 if not eph.noncanonical else 8)
+        for (alg, enc), ser in combos:
+            n = {"compact": 1, "flattened": 1, "general-1": 1, "general-2": 2, "general-3": 3}[ser]
+            one_curve = alg.startswith("ECDH-1PU")      # one sender key for all recipients
+            recips = []
+            for j in range(n):
+                pool = [x for x in (same(eph) if one_curve else cands) if static(x) and not x.public_only]
+                e_j = eph if j == 0 else rng.choice(pool)
+                rks = [x for x in same(e_j) if static(x) and usable(x)]
+                recips.append({"rk": rng.choice(rks).recipe, "eph": e_j.recipe, "name": e_j.name})
+            sender = None
+            if one_curve:
+                sender = rng.choice([x for x in same(eph, private=True) if static(x) and usable(x)]).recipe
+            plan.append({"alg": alg, "enc": enc, "ser": ser, "recipients": [{"rk": r["rk"], "eph": r["eph"]} for r in recips],
+                         "sender": sender, "names": [r["name"] for r in recips]})
+    return plan
+
+
+def _native_of(key):
+    if key.key_type == "oct":
+        return key.raw_value
+    return key.private_key
+
+
+def find_epks(o, acc, depth=0):
+    """every value stored under a member named epk, anywhere in (decoded views of) the output"""
+    if depth > 5:
+        return acc
+    if isinstance(o, dict):
+        for k, v in o.items():
+            if k == "epk":
+                acc.append(v)
+            find_epks(v, acc, depth + 1)
+    elif isinstance(o, (list, tuple)):
+        for v in o:
+            find_epks(v, acc, depth + 1)
+    elif isinstance(o, (str, bytes)):
+        b = o.encode() if isinstance(o, str) else o
+        for seg in (b.split(b".") if b"." in b else [b]):
+            if seg[:2] == b"ey" and B64URL_RE.match(seg):
+                with contextlib.suppress(Exception):
+                    find_epks(json.loads(unb64u(seg)), acc, depth + 1)
+    return acc
+
+
+_drafts_registered = []
+
+
+def run_epk_token(spec):
+    """-> (result, [(violation kind, text)], number of epk members checked)"""
+    from joserfc import jwe
+    from joserfc.rfc7516.message import perform_encrypt
+    from joserfc.rfc7516.compact import represent_compact
+    if not _drafts_registered:
+        from joserfc.drafts.jwe_ecdh_1pu import register_ecdh_1pu
+        register_ecdh_1pu()
+        _drafts_registered.append(True)
+    alg, enc, ser = spec["alg"], spec["enc"], spec["ser"]
+    registry = jwe.JWERegistry(algorithms=[alg, enc])
+    rks = [make_key(r["rk"]) for r in spec["recipients"]]
+    ephs = [make_key(r["eph"]) for r in spec["recipients"]]
+    sender = make_key(spec["sender"]) if spec.get("sender") else None
+    secrets, wants = [], []
+    for k in rks + ephs + ([sender] if sender else []):
+        nat = _native_of(k)
+        if nat is not None:
+            secrets += native_secrets(k.key_type, nat)
+    for k in ephs:
+        wants.append({m: v for m, v in dict(k.dict_value).items() if m not in SPEC_PRIVATE[k.key_type]})
+
+    def go():
+        if ser == "compact":
+            obj = jwe.CompactEncryption({"alg": alg, "enc": enc, "apu": b64u(b"Alice")}, PAYLOAD)
+            obj.attach_recipient(rks[0])
+            obj.recipient.ephemeral_key = ephs[0]
+            obj.recipient.sender_key = sender
+            perform_encrypt(obj, registry)
+            return represent_compact(obj).decode("ascii")
+        if ser == "flattened":
+            obj = jwe.FlattenedJSONEncryption({"enc": enc}, PAYLOAD, {"jku": "https://c12.example/jwks"}, b"aad")
+            obj.add_recipient({"alg": alg}, rks[0])
+        else:
+            obj = jwe.GeneralJSONEncryption({"enc": enc}, PAYLOAD)
+            for rk in rks:
+                obj.add_recipient({"alg": alg}, rk)
+        for rec, eph in zip(obj.recipients, ephs):
+            rec.ephemeral_key = eph
+        return jwe.encrypt_json(obj, None, registry=registry, sender_key=sender)
+    with capture_generated() as made:
+        r = call(go)
+    problems = []
+    if made:
+        problems.append(("caller-ephemeral-key-replaced", "generate_key was called although every recipient had a caller-provided ephemeral key"))
+    if r[0] == "err":
+        return r, problems, 0
+    out = r[1]
+    found = scan(out, secrets + ephemeral_secrets(made))
+    if found:
+        problems.append(("private-material-in-output", "output contains private value %s (%s form): %s" % (found[0][0], found[0][1], short(out, 600))))
+    epks = find_epks(out, [])
+    if len(epks) < len(ephs):
+        problems.append(("epk-missing", "%d epk member(s) for %d recipient(s): %s" % (len(epks), len(ephs), short(out, 400))))
+    for epk in epks:
+        if epk not in wants:
+            extra = sorted(set(epk) - set().union(*[set(w) for w in wants])) if isinstance(epk, dict) else "?"
+            problems.append(("private-member-in-epk", "epk %s is not the public view of a provided ephemeral key (unexpected members: %s)" % (
+                short(epk, 500), extra)))
+    return r, problems, len(epks)
+
+
+# ----------------------------------------------------------------------------
 def run(ctx):
     from joserfc import jwe
     from joserfc.jwk import KeySet
@@ -724,7 +927,7 @@ def run(ctx):
                     ctx.violation({"kind": "private-export-from-public-key-returns", "kty": e.kty, "op": name},
                                   "%s on public-only key %s returned %s instead of raising" % (name, e.name, short(r[1])),
                                   {"recipe": e.recipe, "op": name, "output": short(r[1], 2000)})
-        elif e.kty != "oct":
+        elif e.kty != "oct" and not e.noncanonical:
             # non-interference on the implementation: public export of the private key == export of its public-only twin
             twin = key_class(e.kty).import_key(native_bytes(e.native, False, False))
             a, b = e.fresh().as_dict(private=False), twin.as_dict()
@@ -860,22 +1063,30 @@ def run(ctx):
                                   "KeySet.as_dict(private=False) exports private member(s) %s of %s" % (bad, m.name),
                                   {"recipe": m.recipe, "op": "KeySet.as_dict(private=False)", "output": short(o, 2000)})
 
-    # prepare_ephemeral_key: header written for given / generated ephemeral keys
+    # prepare_ephemeral_key: header written for caller-provided / generated / re-generated ephemeral keys
     algs = jwe.JWERegistry.algorithms["alg"]
     curve_entries = [e for e in zoo if e.kty in ("EC", "OKP")]
     others = [e for e in zoo if e.kty in ("oct", "RSA")]
-    n_epk = ctx.scale(80, 1200)
-    for i in range(n_epk):
+
+    def same_curve(e):
+        return [x for x in curve_entries if x.kty == e.kty and x.crv == e.crv]
+
+    plan = []
+    for eph_e in curve_entries:             # every representation (incl. non-canonical JWKs) as a caller-provided ephemeral key
+        plan.append((rng.choice(same_curve(eph_e)), eph_e, "given"))
+    for i in range(ctx.scale(60, 1000)):
         rk_e = rng.choice(curve_entries) if rng.random() < 0.85 else rng.choice(others)
-        mode = rng.choice(["same", "same", "none", "none", "other", "public"])
-        if mode == "none":
+        mode = rng.choice(["none", "none", "again", "given-again", "other", "public"])
+        if mode in ("none", "again"):
             eph_e = None
-        elif mode == "same":
-            eph_e = rng.choice([e for e in curve_entries if e.kty == rk_e.kty and e.crv == rk_e.crv] or curve_entries)
+        elif mode == "given-again":
+            eph_e = rng.choice(same_curve(rk_e) or curve_entries)
         elif mode == "public":
             eph_e = rng.choice([e for e in curve_entries if e.public_only])
         else:
             eph_e = rng.choice(zoo)
+        plan.append((rk_e, eph_e, mode))
+    for i, (rk_e, eph_e, mode) in enumerate(plan):
         alg = algs[rng.choice(["ECDH-ES", "ECDH-ES+A128KW", "ECDH-ES+A256KW"])]
         hdr0 = rng.choice([{"alg": alg.name, "enc": "A128GCM"}, {"alg": alg.name, "enc": "A128GCM", "epk": {"stale": 1}, "kid": "r"},
                            {"epk": "old", "alg": alg.name}, {}])
@@ -889,28 +1100,47 @@ def run(ctx):
             rec = Recipient(parent, dict(hdr0) if hdr0 else None, rk)
         if eph_e is not None:
             rec.ephemeral_key = eph_e.fresh()
-        with capture_generated() as made:
-            r = call(alg.prepare_ephemeral_key, rec)
-        written = parent.protected if compact else (rec.header or {})
-        eph = rec.ephemeral_key
-        if eph is None:         # failed before an ephemeral key existed: the model needs some key, its value is irrelevant
-            eph = rk
-        res = ("ok", dict(written)) if r[0] == "ok" else r
-        add("CEpk %s %s %s %s" % (KIND[rk.key_type], key_tuple(eph, dict(eph.dict_value)), c_kd(hdr0), c_res(res, c_kd)),
-            ("epk", rk_e.name, eph_e.name if eph_e else "generated", compact))
-        ctx.note_case(("epk", i, rk_e.name, eph_e.name if eph_e else None, compact))
-        dist["epk_cases"] += 1
-        if r[0] == "ok":
-            secrets = rk_e.secrets + (eph_e.secrets if eph_e else []) + ephemeral_secrets(made)
+        secrets = rk_e.secrets + (eph_e.secrets if eph_e else [])
+        rounds = 2 if mode in ("again", "given-again") else 1      # second round = re-encryption of the same object
+        for rnd in range(rounds):
+            before = rec.ephemeral_key
+            before_t = "None" if before is None else "(Some %s)" % key_tuple(before, dict(before.dict_value))
+            mark = bool(getattr(rec, "_ephemeral_key_generated", False))
+            start = dict(parent.protected) if compact else dict(rec.header or {})
+            with capture_generated() as made:
+                r = call(alg.prepare_ephemeral_key, rec)
+            written = parent.protected if compact else (rec.header or {})
+            eph = rec.ephemeral_key
+            fresh_k = made[-1] if made else (eph if eph is not None else rk)   # any key when nothing was generated
+            res = ("ok", dict(written)) if r[0] == "ok" else r
+            add("CEpk %s %s %s %s %s %s" % (KIND[rk.key_type], before_t, c_bool(mark), key_tuple(fresh_k, dict(fresh_k.dict_value)),
+                                           c_kd(start), c_res(res, c_kd)),
+                ("epk", rk_e.name, eph_e.name if eph_e else "generated", mode, rnd, compact))
+            ctx.note_case(("epk", i, rnd, rk_e.name, eph_e.name if eph_e else None, compact))
+            dist["epk_cases"] += 1
+            if r[0] != "ok":
+                break
+            secrets = secrets + ephemeral_secrets(made)
             found = scan(written, secrets)
             epk = written.get("epk")
-            names = [m for m in SPEC_PRIVATE[eph.key_type] if isinstance(epk, dict) and m in epk]
-            if found or names:
+            want = {k: v for k, v in eph.dict_value.items() if k not in SPEC_PRIVATE[eph.key_type]}
+            if found or epk != want:
                 ctx.violation({"kind": "private-member-in-epk", "kty": eph.key_type, "op": "prepare_ephemeral_key"},
-                              "prepare_ephemeral_key wrote epk %s (private members %s, private values %s); recipient %s, ephemeral %s" % (
-                                  short(epk), names, found, rk_e.name, eph_e.name if eph_e else "generated"),
+                              "prepare_ephemeral_key wrote epk %s, expected the public members %s of the ephemeral key (private values found: %s); "
+                              "recipient %s, ephemeral %s" % (short(epk, 400), sorted(want), found, rk_e.name, eph_e.name if eph_e else "generated"),
                               {"recipe": rk_e.recipe, "ephemeral_recipe": eph_e.recipe if eph_e else None, "op": "prepare_ephemeral_key",
                                "alg": alg.name})
+
+    # ---- 3. tokens made with CALLER-PROVIDED ephemeral keys, every representation, ECDH-ES / ECDH-1PU (+KW), all serializations
+    for spec in epk_token_plan(ctx, zoo):
+        r, problems, n_epk_seen = run_epk_token(spec)
+        ctx.note_case(("epk-token", json.dumps(spec, sort_keys=True)))
+        dist["epk_tokens" if r[0] == "ok" else "epk_tokens_refused"] = dist.get("epk_tokens" if r[0] == "ok" else "epk_tokens_refused", 0) + 1
+        dist["epk_members_checked"] = dist.get("epk_members_checked", 0) + n_epk_seen
+        for kind, text in problems:
+            ctx.violation({"kind": kind, "op": "jwe[caller-provided epk]", "alg": spec["alg"].split("+")[0], "ser": spec["ser"].split("-")[0]},
+                          "%s %s with caller-provided ephemeral key(s) %s: %s" % (spec["alg"], spec["ser"], spec["names"], text),
+                          {"op": "epk-token", "spec": spec})
 
     ctx.coverage["input_distribution"] = dist
     ctx.coverage["rule"] = ("every private value of the native key (pyca numbers / raw octets), >= %d octets, searched in raw, hex, HEX, "
@@ -957,6 +1187,11 @@ def run(ctx):
 def replay(path):
     r = json.load(open(path))["replay"]
     print("replay:", {k: (v if k != "output" else "...") for k, v in r.items()})
+    if r.get("op") == "epk-token":
+        res, problems, n = run_epk_token(r["spec"])
+        print("result:", res[0], short(res[1], 600))
+        print("problems:", problems, "epk members checked:", n)
+        return 1 if (problems or res[0] == "err") else 0
     if "recipe" not in r or "op" not in r:
         print("no direct witness in this replay file (see 'broken')")
         return 1
